@@ -48,6 +48,11 @@ type vfHist struct {
 	hseed   uint64
 	// incarnations of the target double (every cut replays the log into a new one)
 	inc, incStart int
+	// the forced shape "cut relabel -> advancing life -> reset cut between the two labels"
+	forced    bool
+	lifeShare int // forced: per cent of the life's requests that are executed (0 = random)
+	cutAtHset bool // forced: the next cut operation stops right after its first HSET
+	cutAtDel  bool // forced: the next cut operation stops right after one of its HDELs
 }
 
 func (h *vfHist) out(label string) *RedisOutput {
@@ -114,6 +119,24 @@ func (h *vfHist) cutTo(n int) {
 // cutIndex: where the process dies inside an operation: after any request, mostly right after one
 // of its writes (the reads in between change nothing).
 func (h *vfHist) cutIndex(log []vfdoubles.LogEntry) int {
+	if h.cutAtHset || h.cutAtDel {
+		var at []int
+		for i, e := range log {
+			if c := e.Cmd(); (h.cutAtHset && c == "hset" || h.cutAtDel && c == "hdel") && len(e.Args) > 1 && string(e.Args[1]) == h.c.cp {
+				at = append(at, i+1)
+				if h.cutAtHset {
+					break
+				}
+			}
+		}
+		h.cutAtHset, h.cutAtDel = false, false
+		if len(at) > 1 {
+			return vfutil.Pick(h.r, at[:len(at)-1]) // not after the last deletion: that is the complete reset
+		}
+		if len(at) == 1 {
+			return at[0]
+		}
+	}
 	var w []int
 	for i, e := range log {
 		if c := e.Cmd(); c == "hset" || c == "hdel" {
@@ -309,6 +332,9 @@ func (h *vfHist) life(base int64, stream []byte, ends []int) bool {
 	if h.r.Chance(1, 4) {
 		k = len(log)
 	}
+	if h.lifeShare > 0 {
+		k = len(log) * h.lifeShare / 100
+	}
 	h.cutTo(n0 + k)
 	h.s.Count("hist_life")
 	h.s.Add("hist_life_requests", k)
@@ -332,10 +358,23 @@ func vfHistCase(t *testing.T, s *vfutil.Session, c0 *vfSCase, tag int, hseed uin
 	h.label, h.prev = "prev0", ""
 	ok := true
 	epochs := r.Range(1, 2)
+	// a fixed share of the histories has the shape that needs the records of TWO labels deleted in ONE
+	// ascending order (6d4dd34): a relabel cut right after its first write (the old label's records all
+	// stay), a life under the new label that advances the position, then the FULLRESYNC reset of the
+	// next epoch cut after one of its deletions (label by label, the new label's larger record would go
+	// before the old label's stale one)
+	h.forced = r.Chance(1, 5) && len(c.raw) >= 4
+	if h.forced {
+		epochs = 2
+		s.Count("hist_forced_two_label_reset")
+	}
 	for ep := 0; ep < epochs && ok; ep++ {
 		// ---- full sync: FULLRESYNC answered -> reset, relabel, snapshot replayed, its offset stored
 		if ep > 0 || r.Chance(1, 2) {
 			cut := r.Chance(1, 2) // also with remnants of a cut relabel: DelCheckpoints orders the records of ALL labels
+			if h.forced && ep > 0 {
+				cut, h.cutAtDel = true, true
+			}
 			if ok = h.reset(cut); !ok {
 				break
 			}
@@ -369,6 +408,21 @@ func vfHistCase(t *testing.T, s *vfutil.Session, c0 *vfSCase, tag int, hseed uin
 			h.allowed[base+int64(e)] = true
 		}
 		// ---- lives, fail-overs
+		if h.forced && ep == 0 {
+			h.lifeShare = 45
+			ok = h.life(base, stream, ends)
+			if ok {
+				gen++
+				h.cutAtHset = true
+				ok = h.relabel(idOf(gen), true)
+			}
+			if ok {
+				h.lifeShare = 100
+				ok = h.life(base, stream, ends)
+			}
+			h.lifeShare = 0
+			continue
+		}
 		for li, nl := 0, r.Range(1, 3); li < nl && ok; li++ {
 			ok = h.life(base, stream, ends)
 			if ok && r.Chance(1, 3) && !h.remnants(h.prev) {
